@@ -237,7 +237,7 @@ def run(ctx):
   for i in range(0, len(cases), per):
     rs.append(dict(src='mc', est=gen.PAIRS[(i // per) % 3], d=int(rng.integers(2, 5)),
                    seed=int(rng.integers(1 << 30)), cases=cases[i:i + per]))
-  for i in range(9 if ctx.quick else 240):
+  for i in range(9 if ctx.quick else 480):
     rs.append(dict(src='random', est=gen.PAIRS[i % 3], d=int(rng.integers(2, 7)), seed=int(rng.integers(1 << 30)),
                    n=25 if ctx.quick else 60))
   for i in range(3 if ctx.quick else 36):
